@@ -218,7 +218,7 @@ func Convert(value any, typ reflect.Type) (any, error) { //nolint: gocyclo
 			return result.Interface(), nil
 		case reflect.Map:
 			result := reflect.MakeSlice(typ, 0, rv.Len())
-			for _, key := range rv.MapKeys() {
+			for _, key := range SortedMapKeys(rv) {
 				item, err := Convert(rv.MapIndex(key).Interface(), typ.Elem())
 				if err != nil {
 					return nil, err
